@@ -61,6 +61,8 @@ def _find_func(tree, name):
 
 
 def source_obligations(ctx):
+    """returns the list of functions whose formula lines changed (the search is then widened, see gen_large)"""
+    broken = []
     trees = {}
     for mod, path in (('Numerics', NUMERICS), ('Spectrum', SPECTRUM)):
         try:
@@ -73,7 +75,7 @@ def source_obligations(ctx):
         tree = trees.get(mod)
         node = _find_func(tree, fn) if tree is not None else None
         if node is None:
-            ctx.obligation(name, False, 'translator', 'function not found'); continue
+            ctx.obligation(name, False, 'translator', 'function not found'); broken.append(fn); continue
         have = set()
         for st in ast.walk(node):
             if isinstance(st, ast.stmt):
@@ -84,6 +86,9 @@ def source_obligations(ctx):
                 have.add(txt.split('\n')[0].strip())
         missing = [l for l in lines if l not in have]
         ctx.obligation(name, not missing, 'translator', 'missing/changed: %r' % missing[:3] if missing else '')
+        if missing:
+            broken.append(fn)
+    return broken
 
 
 # ----------------------------------------------------------------------------------------------
@@ -93,6 +98,79 @@ def H(n, m, j, i):
     if 0 <= i <= m and 0 <= j - i <= n - m and 0 <= j <= n:
         return Fraction(comb(m, i) * comb(n - m, j - i), comb(n, j))
     return Fraction(0)
+
+
+# the right-hand side of theorem C08_mask_spreads_exactly, per axis, in exact integer arithmetic only:
+#   target entry i (of n) is masked  <->  exists j, source entry j (of N) masked and H(N,n,j,i) > 0,
+#   H(N,n,j,i) > 0  <->  C(n,i) * C(N-n,j-i) > 0        (no window formula, no float, no library weight)
+_REACH = {}
+
+
+def reach(N, n):
+    """R[j] = list of the target entries i with C(n,i)*C(N-n,j-i) > 0"""
+    key = (N, n)
+    if key not in _REACH:
+        _REACH[key] = [[i for i in range(n + 1) if j - i >= 0 and comb(n, i) * comb(N - n, j - i) > 0] for j in range(N + 1)]
+    return _REACH[key]
+
+
+def _prod(xs):
+    r = 1
+    for x in xs:
+        r *= x
+    return r
+
+
+def spread_axis(mask, shape, ax, n):
+    """row-major flat mask of `shape`, axis ax projected to size n: (flat mask, shape) demanded by the theorem"""
+    L = shape[ax]; R = reach(L - 1, n)
+    inner = _prod(shape[ax + 1:]); outer = _prod(shape[:ax])
+    out = [False] * (outer * (n + 1) * inner)
+    for o in range(outer):
+        for j in range(L):
+            base = (o * L + j) * inner
+            ks = [k for k in range(inner) if mask[base + k]]
+            if not ks:
+                continue
+            for i in R[j]:
+                tb = (o * (n + 1) + i) * inner
+                for k in ks:
+                    out[tb + k] = True
+    return out, list(shape[:ax]) + [n + 1] + list(shape[ax + 1:])
+
+
+def _folded_out(shape):
+    T = sum(s - 1 for s in shape)
+    return [sum(idx) > T // 2 for idx in itertools.product(*[range(s) for s in shape])]
+
+
+def ref_unfold_mask(mask, shape):
+    nm = [bool(m) != f for m, f in zip(mask, _folded_out(shape))]
+    out = [a or b_ for a, b_ in zip(nm, reversed(nm))]
+    if out:
+        out[0] = True; out[-1] = True
+    return out
+
+
+def ref_fold_mask(mask, shape):
+    out = [a or b_ or f for a, b_, f in zip(mask, reversed(mask), _folded_out(shape))]
+    if out:
+        out[0] = True; out[-1] = True
+    return out
+
+
+def reference_mask(mask, shape, ns, folded):
+    """exact mask of Spectrum.project(ns): per shrinking axis the support criterion of C08_mask_spreads_exactly;
+    folded spectra: fold(project(unfold)) with the mask algebra of fold/unfold (reversal, folded-out half, corners)"""
+    mk, sh = [bool(m) for m in mask], list(shape)
+    if folded:
+        mk = ref_unfold_mask(mk, sh)
+    for ax, n in enumerate(ns):
+        if n != shape[ax] - 1:
+            mk, sh = spread_axis(mk, sh, ax, n)
+    if folded:
+        mk = ref_fold_mask(mk, sh)
+    return mk
 
 
 def nested(flat, shape, fmt):
@@ -250,6 +328,162 @@ def gen_spectra(ctx):
     return cases
 
 
+LARGE_SHARD = 6
+LARGE_MASKS = ('none', 'mid', 'quarter', 'few', 'dense')
+LARGE_DATA = ('sparse', 'spike', 'range', 'counts')
+
+
+def large_case(rng, cid, N, layout, folded, mkind, dkind, n, corners, sweep_pos=None):
+    """one spectrum with ONE large axis (sample size N) projected to n on that axis.
+    layout '1d' | '2d0' (large axis first) | '2d1' (large axis last).
+    mask kinds: none | mid (one entry, hits = N/2) | quarter (hits = N/4) | few (3 isolated entries) | dense (control)
+                | sweep (one entry at sweep_pos);
+    data kinds (all non-negative dyadic, sums stay below 1e200): sparse (one non-zero entry of magnitude 2^-760, so that an
+    entry in the tail of its window is ONLY weight * value with weight down to 1/C(N,N/2)), spike (one 2^650 among 2^-650),
+    range (independent magnitudes 2^-650 .. 2^650), counts (as the small cases)."""
+    s = rng.choice([2, 3])
+    if layout == '1d':
+        shape, ax = [N + 1], 0
+    elif layout == '2d0':
+        shape, ax = [N + 1, s + 1], 0
+    else:
+        shape, ax = [s + 1, N + 1], 1
+    d = len(shape)
+    size = _prod(shape)
+
+    def flat(pos, other):
+        idx = [other] * d; idx[ax] = pos
+        k = 0
+        for a in range(d):
+            k = k * shape[a] + idx[a]
+        return k
+
+    mask = [False] * size
+    if mkind == 'mid':
+        hits = [N // 2]
+    elif mkind == 'quarter':
+        hits = [N // 4]
+    elif mkind == 'few':
+        hits = sorted(rng.sample(range(2, N - 1), 3))
+    elif mkind == 'sweep':
+        hits = [sweep_pos]
+    else:
+        hits = []
+    for h in hits:
+        mask[flat(h, rng.randrange(s + 1))] = True
+    if mkind == 'dense':
+        p = rng.choice([0.05, 0.15, 0.3])
+        mask = [rng.random() < p for _ in range(size)]
+    # data
+    odd = lambda: 2 * rng.randint(0, 31) + 1
+    p0 = N // 2 if mkind != 'mid' else N // 2 + 2
+    if dkind == 'sparse':
+        data = [0.0] * size
+        data[flat(p0, rng.randrange(s + 1))] = math.ldexp(odd(), rng.choice([-760, -760, 0, 600]))
+    elif dkind == 'spike':
+        data = [math.ldexp(odd(), -650) for _ in range(size)]
+        data[flat(p0, rng.randrange(s + 1))] = math.ldexp(odd(), 650)
+    elif dkind == 'range':
+        data = [math.ldexp(odd(), rng.randint(-650, 650)) for _ in range(size)]
+    else:
+        data = [0.0 if rng.random() < 0.1 else rng.randint(1, 4096) / rng.choice([1, 4, 16, 64]) for _ in range(size)]
+    ns, mid = [0] * d, [0] * d
+    ns[ax] = n
+    mid[ax] = (N + n) // 2 if cid % 2 == 0 else rng.randint(n + 1, N - 1)
+    if d == 2:
+        o = 1 - ax
+        ns[o] = rng.choice([s, s, s - 1, 1])
+        mid[o] = rng.randint(ns[o], s)
+    perm = list(range(d)); rng.shuffle(perm)
+    return {'id': cid, 'd': d, 'shape': shape, 'data': data, 'mask': mask, 'mask_corners': corners, 'folded': folded,
+            'ns': ns, 'mid': mid, 'perm': perm, 'noskip': False, 'pop_ids': None, 'extrap_x': None,
+            'large': {'N': N, 'axis': ax, 'mask_kind': mkind, 'data_kind': dkind, 'masked_hits': hits}}
+
+
+def gen_large(ctx, first_id, widened):
+    """SYSTEMATIC (not sampled) large-axis pool, run in every tier: the regime where the smallest positive weight
+    1/C(N,N/2) is far below float resolution (N >= 56: < 2.2e-16; N = 200: 1e-59), so that anything deciding
+    'contributes' by magnitude instead of by the least/most window differs from the theorem -- visible only with SPARSE
+    masks / data (one interior entry) and a target well below N, in the tails of the hypergeometric.
+    N x {1-D, 2-D with one large axis} x {unfolded, folded} x mask kind x target n in {N/2, N/4, 3, 1}; data kind chosen
+    by a Latin rule so that every (N, layout, folded, mask kind) meets all four data kinds.  Every case also runs
+    two-stage, axis order, fold consistency (impl) and goes through the Coq model.
+    widened (a source-shape obligation of the projection code is broken, or thorough tier): more sizes, both 2-D layouts
+    for every N, and a sweep of a single masked entry over every position (mask predicate only, no Coq)."""
+    rng = ctx.rng
+    cases = []
+    cid = first_id
+    Ns = [56, 64, 80, 120, 200]
+    if not ctx.quick:
+        Ns = [56, 57, 64, 80, 101, 120, 160, 200]
+    for a, N in enumerate(Ns):
+        layouts = ['1d', '2d0' if a % 2 == 0 else '2d1'] if ctx.quick else ['1d', '2d0', '2d1']
+        for layout in layouts:
+            for folded in (False, True):
+                targets = [N // 2, N // 4, 3, 1]
+                if ctx.quick and layout != '1d' and folded:
+                    targets = [N // 2, 3] if a % 2 == 0 else [N // 4, 1]
+                for mi, mkind in enumerate(LARGE_MASKS):
+                    for n in targets:
+                        ti = [N // 2, N // 4, 3, 1].index(n)
+                        dkind = LARGE_DATA[(mi + ti) % 4]
+                        corners = False if (layout == '1d' and mkind in ('none', 'mid', 'quarter')) else (cid % 2 == 1)
+                        cases.append(large_case(rng, cid, N, layout, folded, mkind, dkind, n, corners)); cid += 1
+    if widened:
+        # one masked entry at EVERY position of the large axis (and 1-D / 2-D, folded / unfolded alternating), sizes up to 400
+        for N in [56, 57, 58, 60, 64, 72, 80, 100, 120, 160, 200, 300, 400]:
+            step = 1 if N <= 120 else (2 if N <= 200 else 7)
+            for pos in range(0, N + 1, step):
+                for n in (N // 2 if pos % 2 == 0 else N // 4, 3):
+                    layout = ('1d', '1d', '2d0', '2d1')[(pos + n) % 4]
+                    c = large_case(rng, cid, N, layout, (pos // 2 + n) % 3 == 0, 'sweep', 'counts', n, False, sweep_pos=pos)
+                    c['nocoq'] = True
+                    cases.append(c); cid += 1
+    return cases
+
+
+def gen_bigweights(ctx):
+    """weight vectors at proj_from = 400 and 1000 (smallest weights 1e-120 / 4e-300, still normal float64 numbers): support and
+    value against exact integer binomials on the Python side (the Coq comparison stops at 200, where the log-gamma error
+    leaves a factor 30 below its tolerance)"""
+    out = []
+    for N in (400, 1000):
+        for n in (N // 2, N // 4, 3, 1):
+            for hits in (N // 2, N // 4, N // 3, N - 5, 1):
+                out.append((n, N, hits))
+    return out
+
+
+def check_bigweights(ctx, triples, res):
+    nbad = 0
+    for (m, n, j), w in zip(triples, res):
+        ctx.count('weights_n>200'); ctx.case(signature=('W', m, n, j))
+        bad = None
+        if isinstance(w, dict):
+            bad = 'raised %r' % (w,)
+        elif len(w) != m + 1:
+            bad = 'length %d' % len(w)
+        else:
+            for i in range(m + 1):
+                num = comb(m, i) * comb(n - m, j - i) if j - i >= 0 else 0
+                if num == 0:
+                    if w[i] != 0.0:
+                        bad = 'entry %d is %r, the exact weight is 0' % (i, w[i]); break
+                    continue
+                e = Fraction(num, comb(n, j))
+                if e < Fraction(1, 10 ** 305):
+                    continue                    # below the normal float64 range: underflow is legitimate
+                if abs(Fraction(w[i]) - e) > Fraction(1, 10 ** 9) * e:
+                    bad = 'entry %d is %r, the exact weight is %r' % (i, w[i], float(e)); break
+        if bad:
+            nbad += 1
+            if nbad <= 3:
+                ctx.violation('_cached_projection(%d, %d, %d) is not the hypergeometric weight vector (positive exactly on the window, 1e-9 relative): %s' % (m, n, j, bad),
+                              data={'kind': 'bigweights', 'triple': [m, n, j], 'impl': w})
+    ctx.obligation('predicate: _cached_projection at proj_from 400 / 1000: positive exactly where C(m,i)C(n-m,j-i) > 0, values within 1e-9 (%d vectors)' % len(triples),
+                   nbad == 0, 'predicate')
+
+
 def gen_neutral(ctx):
     rng = ctx.rng
     pairs = []
@@ -333,7 +567,7 @@ def expected_mask(c, inp):
 
 def check_spectra(ctx, cases, res):
     byid = {r['id']: r for r in res}
-    exprs_by_d = {1: [], 2: [], 3: [], 4: []}
+    exprs_by_d = {1: [], 2: [], 3: [], 4: [], 'L1': [], 'L2': []}
     meta = {}
     nv = {'n': 0}
 
@@ -349,6 +583,9 @@ def check_spectra(ctx, cases, res):
         r = byid[c['id']]
         d = c['d']; inp = r['input']; out = r['out']
         ctx.count('dim=%d' % d); ctx.count('folded' if c['folded'] else 'unfolded')
+        lg = c.get('large')
+        if lg:
+            ctx.count('large_axis_N=%d' % lg['N']); ctx.count('large_mask_' + lg['mask_kind']); ctx.count('large_data_' + lg['data_kind'])
         nontrivial = (not c.get('expect_error')) and any(a != s - 1 for a, s in zip(c['ns'], c['shape']))
         ctx.case(signature=('s', c['shape'], c['ns'], c['folded'], c['data'][:8], c['mask'][:16]) if nontrivial else None,
                  sample={'shape': c['shape'], 'ns': c['ns'], 'folded': c['folded'], 'out_shape': out.get('shape'),
@@ -381,7 +618,8 @@ def check_spectra(ctx, cases, res):
             if out['pop_ids'] != inp['pop_ids'] or out['extrap_x'] != inp['extrap_x']:
                 viol('projected spectrum lost pop_ids / extrap_x', c, {'impl': out})
             tin = sum(Fraction(x) for x in inp['data']); tout = sum(Fraction(x) for x in out['data'])
-            if abs(tin - tout) > TOL * max(abs(tin), 1):
+            # (data are non-negative: the large-axis cases, whose totals range over 1e-230 .. 1e200, are held to the relative bound)
+            if abs(tin - tout) > TOL * (abs(tin) if lg else max(abs(tin), 1)):
                 viol('projection does not conserve the total: %r before, %r after (shape %r -> ns %r, folded=%s)' % (
                     float(tin), float(tout), c['shape'], c['ns'], c['folded']), c, {'impl': out})
             why = same_result(out, r['two_stage'])
@@ -401,32 +639,52 @@ def check_spectra(ctx, cases, res):
                 if why:
                     viol('fold(project(fs)) differs from project(fold(fs)): %s' % why, c,
                          {'fold_project': r['fold_project'], 'project_fold': r['project_fold']})
-                exp = expected_mask(c, inp)
-                if exp != out['mask']:
-                    k = [i for i, (x, y) in enumerate(zip(exp, out['mask'])) if x != y][0]
-                    viol('mask does not spread to exactly the entries a masked source entry contributes to: flat target index %d is %s, '
-                         'support of the exact weights says %s (shape %r -> ns %r)' % (k, out['mask'][k], exp[k], c['shape'], c['ns']), c,
-                         {'impl_mask': out['mask'], 'expected_mask': exp})
+                if not lg:
+                    exp = expected_mask(c, inp)
+                    if exp != out['mask']:
+                        k = [i for i, (x, y) in enumerate(zip(exp, out['mask'])) if x != y][0]
+                        viol('mask does not spread to exactly the entries a masked source entry contributes to: flat target index %d is %s, '
+                             'support of the exact weights says %s (shape %r -> ns %r)' % (k, out['mask'][k], exp[k], c['shape'], c['ns']), c,
+                             {'impl_mask': out['mask'], 'expected_mask': exp})
+            # mask spreading (C08_mask_spreads_exactly, per shrinking axis, integer binomials only; folded: through the
+            # fold/unfold mask algebra), EXACT equality -- one-stage, two-stage and one axis at a time
+            exp = reference_mask(inp['mask'], inp['shape'], c['ns'], inp['folded'])
+            for label, got in (('project(%r)' % (c['ns'],), out), ('project(%r).project(%r)' % (c['mid'], c['ns']), r['two_stage']),
+                               ('_project_one_axis in order %r' % (c['perm'],), r['in_order'])):
+                if 'error' in got or got['mask'] == exp:
+                    continue
+                bad = [i for i, (x, y) in enumerate(zip(exp, got['mask'])) if x != y]
+                viol('mask does not spread to exactly the entries a masked source entry contributes to: %s on a %s spectrum of sample sizes %r '
+                     '(masked source entries at flat indices %r) leaves %d target entries wrong, first flat target index %d is %s, the support '
+                     'C(n,i)*C(N-n,j-i) > 0 of the exact weights says %s' % (
+                         label, 'folded' if inp['folded'] else 'unfolded', [s_ - 1 for s_ in inp['shape']],
+                         [i for i, mk in enumerate(inp['mask']) if mk][:6], len(bad), bad[0] if bad else -1,
+                         got['mask'][bad[0]] if bad else None, exp[bad[0]] if bad else None), c,
+                     {'impl_mask': got['mask'], 'expected_mask': exp, 'wrong_flat_indices': bad[:40]})
+                break
         # ---- correspondence case (model sees the actual input the implementation saw)
+        if c.get('nocoq'):
+            continue
         n = len(meta)
         if raised:
             oshape, ox, omk = '[]', '[]', '[]'
         else:
             oshape, ox, omk = natl(out['shape']), ql([0.0 if mk else x for x, mk in zip(out['data'], out['mask'])]), bl(out['mask'])
         xin = [x if math.isfinite(x) else 0.0 for x in inp['data']]
-        exprs_by_d[d].append((n, '(Build_scase %d %s %s %s %s %s %s %s %s)' % (
+        exprs_by_d[('L%d' % d) if lg else d].append((n, '(Build_scase %d %s %s %s %s %s %s %s %s)' % (
             d, natl(c['ns']), b(inp['folded']), nested(xin, inp['shape'], q), nested(inp['mask'], inp['shape'], b),
             b(raised), oshape, ox, omk)))
         meta[n] = c
     header = ('From Coq Require Import ZArith QArith List.\nFrom Dadi Require Import Base.Num Base.NumQ Model.Projection '
               'Model.ProjectionCheck.\nImport ListNotations.\nOpen Scope Q_scope.')
     nbad = 0
-    for d, exprs in exprs_by_d.items():
+    for dk, exprs in exprs_by_d.items():
         if not exprs:
             continue
-        results = ctx.coq_cases('s%d' % d, header + '\nDefinition chk := scheck %d %s.' % (d, q(TOL)), exprs,
+        d = dk if isinstance(dk, int) else int(dk[1:])
+        results = ctx.coq_cases('s%s' % dk, header + '\nDefinition chk := scheck %d %s.' % (d, q(TOL)), exprs,
                                 'chk', 'tol 1e-11 relative per unmasked entry; masks, shapes and refusals exactly',
-                                shard=ctx.pick(12, 40), kind='project')
+                                shard=ctx.pick(12, 40) if isinstance(dk, int) else LARGE_SHARD, kind='project')
         for n, _ in exprs:
             c = meta[n]
             rr = results.get(n)
@@ -479,15 +737,19 @@ def run(ctx):
                         'data are non-negative (counts), so entrywise relative comparison of sums is well conditioned',
                         'fold/unfold are modelled only as far as Spectrum.project uses them; their own algebra is C09']
     ctx.trusted += ['MathComp binomial.v (Vandermonde, mul_bin_diag, mul_bin_down, bin_sub, bin_gt0) for the integer identities']
-    source_obligations(ctx)
+    broken = source_obligations(ctx)
     triples = gen_weights(ctx)
     cases = gen_spectra(ctx)
     pairs = gen_neutral(ctx)
     pre = gen_prelude(ctx)
+    # large axes with sparse masks / data: always; widened to more sizes and a sweep of every masked position when a formula
+    # line of the projection code changed (the search for a failing input before 'no-failing-input-found') or in the thorough tier
+    cases += gen_large(ctx, len(cases), widened=bool(broken) or not ctx.quick)
+    bigw = gen_bigweights(ctx)
     if ctx.replay:
         rp = json.load(open(ctx.replay))
         inp = rp.get('input') or {}
-        triples, cases, pairs = [], [], []
+        triples, cases, pairs, bigw = [], [], [], []
         if inp.get('kind') != 'prelude':
             pre = []
         else:
@@ -499,14 +761,21 @@ def run(ctx):
             c = inp['case']; c['id'] = 0; cases = [c]
         elif inp.get('kind') == 'neutral':
             pairs = [tuple(inp['pair'])]
+        elif inp.get('kind') == 'bigweights':
+            bigw = [tuple(inp['triple'])]
         else:
             triples = gen_weights(ctx)[:200]
-    res = lib.run_impl('c08_impl.py', {'prelude': pre, 'weights': [list(t) for t in triples], 'spectra': cases, 'neutral': [list(p) for p in pairs]}, timeout=1800)
+            if not pre:                 # replay of a broken obligation without input: repeat the widened large-axis search
+                cases = gen_large(ctx, 0, widened=True)
+    res = lib.run_impl('c08_impl.py', {'prelude': pre, 'weights': [list(t) for t in triples], 'spectra': cases, 'neutral': [list(p) for p in pairs],
+                                       'bigweights': [list(t) for t in bigw]}, timeout=1800)
     n0 = len(ctx.violations)
     if pre:
         check_prelude(ctx, pre, res['prelude'])
     if triples:
         check_weights(ctx, triples, res['weights'], res['weights_cached'])
+    if bigw:
+        check_bigweights(ctx, bigw, res.get('bigweights', []))
     if cases:
         check_spectra(ctx, cases, res['spectra'])
     if pairs:
